@@ -57,6 +57,8 @@ class NumericArray(list):
     gfapy.ValueError
       If the array is not valid
     """
+    if len(self) == 0:
+      raise gfapy.ValueError("A numeric array cannot be empty")
     self.compute_subtype()
 
   def compute_subtype(self):
